@@ -168,6 +168,8 @@ func scripted() []Script {
 		S("gc-nothing-to-do", true, true, nil, ops(imgM0, tag(m0, "v1")), gcOp),
 		S("gc-all-untagged", true, true, nil, ops(imgM0, refs), gcOp),
 		S("gc-after-untag", true, false, nil, ops(imgM0, imgM1, tag(m0, "v1"), tag(m1, "v2"), untag("v2")), gcOp),
+		S("tag-after-gc-removed-it", true, true, nil, ops(imgM0, imgM1, tag(m0, "v1"), tag(m1, "tmp"), untag("tmp"), gcOp), tag(m1, "v2")),
+		S("tag-after-autogc-removed-it", true, true, nil, ops(imgM0, imgM1, tag(m1, "v2"), del(m0)), tag(c0, "cfg")),
 		S("saveindex-first", false, true, nil, ops(imgM0, imgM1, tag(m0, "v1"), tag(m1, "v2")), saveOp),
 		S("saveindex-unchanged", true, true, nil, ops(imgM0, tag(m0, "v1")), saveOp),
 		S("saveindex-moved-tag", false, true, ops(imgM0, imgM1, tag(m0, "v1"), tag(m0, "old")), ops(tag(m1, "v1"), untag("old"), tag(m1, "new")), saveOp),
